@@ -66,7 +66,7 @@ def ownership_cases():
         P._orig_parse = rec
         lex.Lexer.clone = spy_clone
         tl = getattr(TH, "thread_local", None)
-        had = tl is not None and hasattr(tl, "lexer")
+        had = tl is not None and "lexer" in getattr(tl, "__dict__", {})
         old = getattr(tl, "lexer", None) if tl is not None else None
         results = {}
         try:
@@ -87,17 +87,20 @@ def ownership_cases():
             hold = {"inside": threading.Semaphore(0), "go": threading.Event()}
             gate["hold"] = hold
 
-            def worker(name, arg):
+            def worker(name, arg, **kw):
                 try:
-                    results[name] = ("value", TH.parse(arg))
+                    results[name] = ("value", TH.parse(arg, **kw))
                 except Exception as e:  # noqa: BLE001
                     results[name] = ("raised", e)
             # the application names its threads as it likes: the same name for all (ownership is per thread, not per name)
             ths = [threading.Thread(target=worker, args=("A", inp), name="worker"), threading.Thread(target=worker, args=("B", bad), name="worker"),
-                   threading.Thread(target=worker, args=("C", inp), name="worker")]
+                   threading.Thread(target=worker, args=("C", inp), name="worker"),
+                   # the signature-compatibility arguments given, by two threads at once (they are documented as not used)
+                   threading.Thread(target=worker, args=("D", inp), kwargs={"lexer": P.lexer}, name="worker"),
+                   threading.Thread(target=worker, args=("E", inp), kwargs={"lexer": P.lexer, "debug": True, "tracking": True})]
             for t in ths:
                 t.start()
-            got = sum(1 for _ in range(3) if hold["inside"].acquire(timeout=10))
+            got = sum(1 for _ in range(5) if hold["inside"].acquire(timeout=10))
             hold["go"].set()
             for t in ths:
                 t.join(10)
@@ -108,14 +111,14 @@ def ownership_cases():
             if tl is not None:
                 if had:
                     tl.lexer = old
-                elif hasattr(tl, "lexer"):
+                elif "lexer" in getattr(tl, "__dict__", {}):
                     del tl.lexer
         out = []
         seq = [kw for _, kw in calls[:nseq]]
         par = [kw for _, kw in calls[nseq:]]
         lexers_par = [kw["lexer"] for kw in par]
         out.append(("C14-O/calls-that-overlap-in-time-never-share-a-lexer-also-after-a-call-that-raised",
-                    got == 3 and len(par) == 3 and len({id(x) for x in lexers_par}) == 3))
+                    got == 5 and len(par) == 5 and len({id(x) for x in lexers_par}) == 5))
         out.append(("C14-O/no-call-is-given-the-module-lexer-and-every-lexer-is-a-clone-of-it",
                     all(kw["lexer"] is not P.lexer and isinstance(kw["lexer"], lex.Lexer) and kw["lexer"].lexre is P.lexer.lexre
                         and kw["lexer"].lexstatere is P.lexer.lexstatere and kw["lexer"].__dict__ is not P.lexer.__dict__ for kw in seq + par)
